@@ -66,7 +66,12 @@ int main(int argc, char** argv) {
             try {
                 if (kind == "native") { NativeDocs d; runCase(c, d, d.support, k); }
                 else if (kind == "xerces-built") { XercesDocs d(true); runCase(c, d, d.support, k); }
-                else if (kind == "xerces-lazy") { XercesDocs d(false); runCase(c, d, d.support, k); }
+                else if (kind == "xerces-lazy") {
+                    // not thread-safe AND not built: the only combination in which the wrapper nodes carry no index
+                    // (XercesDocumentWrapper: m_mappingMode = threadSafe ? false : !buildWrapper), so that document
+                    // order is decided by the structural DOMServices::isNodeAfter
+                    XercesDocs d(false, false); runCase(c, d, d.support, k);
+                }
                 else { fprintf(stderr, "unknown kind %s\n", kind.c_str()); return 2; }
             } catch (const XSLException& e) {
                 printf("{\"e\":\"Error\",\"msg\":%s}\n", jstr(excMessage(e)).c_str());
